@@ -368,6 +368,11 @@ func (s *Stream) reset() error {
 		return fmt.Errorf("stream had unread data, size:%d ", unreadSize)
 	}
 
+	// return error if the user left unflushed data in the write buffer
+	if unsentSize := s.sendBuf.Len(); unsentSize > 0 {
+		return fmt.Errorf("stream had unflushed data, size:%d ", unsentSize)
+	}
+
 	s.pendingData.Lock()
 	if len(s.pendingData.unread) > 0 {
 		s.pendingData.Unlock()
